@@ -7,6 +7,7 @@
   the C11 reading of it and the rejection of malformed documents by either architecture.
 -/
 import SonicSpec.Props.C01
+import SonicSpec.Proofs.BindDom
 namespace SonicSpec.Props.C11
 open SonicSpec SonicSpec.Go SonicSpec.Json SonicSpec.Bind
 
@@ -43,5 +44,120 @@ theorem both_reject_malformed (o : DecOpts) (T : GoType) (s : Bytes) (h : Stream
   intro v hv
   have hs := C01.bind_ok_implies_stream_ok o T s v hv
   exact stream_rejects_malformed o T s h v hs
+
+/-! ### the alternative decoder as it is built: two phases (`Opt`, Model/BindDom.lean)
+
+  `Opt.decode q` = `parseDom` (eager DOM: numbers converted and strings un-escaped at parse time) then `bindDom`
+  (range checks on the parsed class).  `Quirks.none` is the repaired optdec, `Quirks.real` the code as it is. -/
+
+/-- REFINEMENT, full strength: on EVERY input (any option set, type, byte string) the two-phase decoder
+    without quirks returns what the specification returns - same value, same error class -/
+theorem optdec_eq_bind (o : DecOpts) (T : GoType) (s : Bytes) :
+    Opt.decode .none o T s = Bind.decode o T s ∧ Opt.decodeFull .none o T s = Bind.decodeFull o T s :=
+  ⟨Opt.decode_none_eq o T s, Opt.decodeFull_none_eq o T s⟩
+
+/-- ... and for optdec AS IT IS under the named hypothesis that no quirk fires: the two value quirks are off
+    (`nullElem`, `f32ViaF64`) and the document holds no literal that the eager conversion refuses (or raw-number
+    mode is on: UseNumber with an interface{} / map[string]interface{} / []interface{} root), and the fastmap
+    path is not taken -/
+theorem optdec_eq_bind_partial (q : Opt.Quirks) (o : DecOpts) (T : GoType) (s : Bytes)
+    (hn : q.nullElem = false) (hf : q.f32ViaF64 = false)
+    (hfm : (q.fastmapNullDup && Opt.fastmapOn o T) = false)
+    (hov : ∀ j, parseRDoc s = some j → (q.eagerRange && Opt.eagerMode o T && Opt.ovf o j) = false) :
+    Opt.decodeFull q o T s = Bind.decodeFull o T s :=
+  Opt.decodeFull_eq_of q o T s hn hf hfm hov
+
+/-- C11 for all inputs, both architectures as models: on every document of the strict grammar the single
+    pass (jitdec) and the two phases (optdec) agree on error-or-not, error class and value -/
+theorem jit_eq_optdec_on_valid (o : DecOpts) (T : GoType) (s : Bytes) (h : (parseRDoc s).isSome = true) :
+    Stream.decode o T s = Opt.decode .none o T s := by
+  rw [(optdec_eq_bind o T s).1]
+  exact decoders_agree_on_valid o T s h
+
+/-- ... and on every other document the two-phase decoder reports a syntax error, while the single pass
+    accepts at most structurally well-formed documents (the documented leniency) -/
+theorem optdec_rejects_invalid (o : DecOpts) (T : GoType) (s : Bytes) (h : parseRDoc s = none) :
+    Opt.decode .none o T s = .error .syntax := by
+  rw [(optdec_eq_bind o T s).1]
+  exact C01.bind_syntax_error o T s h
+
+theorem optdec_rejects_malformed (o : DecOpts) (T : GoType) (s : Bytes) (h : Stream.structuralDoc false s = false) :
+    ∀ v, Opt.decode .none o T s ≠ .ok v := by
+  rw [(optdec_eq_bind o T s).1]
+  exact (both_reject_malformed o T s h).2
+
+/-! ### the recorded optdec findings as kernel-checked differences of `Quirks.real` -/
+
+def bytesOf (s : String) : Bytes := s.toUTF8.toList
+
+def isOkNum (r : Except DErr GoVal) (txt : Bytes) : Bool :=
+  match r with
+  | .ok (.num t) => t == txt
+  | _ => false
+
+def isErr (r : Except DErr GoVal) (e : DErr) : Bool :=
+  match r with
+  | .error e' => e' == e
+  | _ => false
+
+/-- C11-optdec-eager-number-range: `1e400` into json.Number - the specification keeps the text, optdec as it
+    is reports a syntax error (every literal is converted at parse time) -/
+theorem optdec_real_eager_range_fails :
+    isOkNum (Bind.decode {} .num (bytesOf "1e400")) (bytesOf "1e400") = true ∧
+    isErr (Opt.decode .real {} .num (bytesOf "1e400")) .syntax = true := by decide +kernel
+
+/-- the same literal in a value that is only skipped (unknown field) -/
+theorem optdec_real_eager_range_skipped_fails :
+    (match Bind.decode {} (.st [("A", none, .int 64)]) (bytesOf "{\"A\":1,\"b\":1e400}") with
+      | .ok (.st [.int 1]) => true | _ => false) = true ∧
+    isErr (Opt.decode .real {} (.st [("A", none, .int 64)]) (bytesOf "{\"A\":1,\"b\":1e400}")) .syntax = true := by
+  decide +kernel
+
+/-- raw-number mode: under UseNumber the literal survives into a root interface{} but not into an
+    interface{} FIELD (native.go:184 looks at the root type only) -/
+theorem optdec_real_usenumber_root_only :
+    (match Opt.decode .real { useNumber := true } .any (bytesOf "1e400") with
+      | .ok (.any .num (.num _)) => true | _ => false) = true ∧
+    isErr (Opt.decode .real { useNumber := true } (.st [("A", none, .any)]) (bytesOf "{\"A\":1e400}")) .syntax = true ∧
+    (match Bind.decode { useNumber := true } (.st [("A", none, .any)]) (bytesOf "{\"A\":1e400}") with
+      | .ok (.st [.any .num (.num _)]) => true | _ => false) = true := by decide +kernel
+
+/-- C11-optdec-null-in-slice: `[1,null]` into []int64 and `{"a":null}` into map[string]string are type
+    errors in optdec as it is, no-ops in the specification; []int16 and map[string]int are not affected -/
+theorem optdec_real_null_elem_fails :
+    (match Bind.decode {} (.sl (.int 64)) (bytesOf "[1,null]") with | .ok (.sl [.int 1, .int 0]) => true | _ => false) = true ∧
+    isErr (Opt.decode .real {} (.sl (.int 64)) (bytesOf "[1,null]")) .mismatch = true ∧
+    (match Bind.decode {} (.map .str .str) (bytesOf "{\"a\":null}") with | .ok (.map [(.str _, .str [])]) => true | _ => false) = true ∧
+    isErr (Opt.decode .real {} (.map .str .str) (bytesOf "{\"a\":null}")) .mismatch = true ∧
+    (match Opt.decode .real {} (.sl (.int 16)) (bytesOf "[1,null]") with | .ok (.sl [.int 1, .int 0]) => true | _ => false) = true ∧
+    (match Opt.decode .real {} (.map .str (.int 64)) (bytesOf "{\"a\":null}") with | .ok (.map [(.str _, .int 0)]) => true | _ => false) = true := by
+  decide +kernel
+
+/-- C19-f32-double-rounding as optdec has it: float32 narrowed from the float64 of phase 1 -/
+theorem optdec_real_f32_double_rounding_fails :
+    (match Bind.decode {} .f32 (bytesOf "1.00000017881393432617187499") with | .ok (.f32 b) => b == 0x3f800001 | _ => false) = true ∧
+    (match Opt.decode .real {} .f32 (bytesOf "1.00000017881393432617187499") with | .ok (.f32 b) => b == 0x3f800002 | _ => false) = true := by
+  decide +kernel
+
+/-- C11-fastmap-dup-key-null-keeps-value: with the fastmap path a later `null` for a key already seen inside an
+    interface{} keeps the earlier value; without it (and in the specification) the value becomes nil; CopyString
+    switches the path off, and the entries of a ROOT map[string]interface{} are not affected -/
+theorem optdec_fastmap_dup_null_fails :
+    (match Bind.decode {} .any (bytesOf "{\"a\":1,\"a\":null}") with
+      | .ok (.any _ (.map [(.str _, .nil)])) => true | _ => false) = true ∧
+    (match Opt.decode .real {} .any (bytesOf "{\"a\":1,\"a\":null}") with
+      | .ok (.any _ (.map [(.str _, .nil)])) => true | _ => false) = true ∧
+    (match Opt.decode .realFastmap {} .any (bytesOf "{\"a\":1,\"a\":null}") with
+      | .ok (.any _ (.map [(.str _, .any .f64 _)])) => true | _ => false) = true ∧
+    (match Opt.decode .realFastmap { copyString := true } .any (bytesOf "{\"a\":1,\"a\":null}") with
+      | .ok (.any _ (.map [(.str _, .nil)])) => true | _ => false) = true ∧
+    (match Opt.decode .realFastmap {} (.map .str .any) (bytesOf "{\"a\":1,\"a\":null}") with
+      | .ok (.map [(.str _, .nil)]) => true | _ => false) = true := by decide +kernel
+
+/-- non-vacuity of the refinement: a document with numbers of every class, strings with escapes, nesting and a
+    mismatch goes through both phases to the same result as through the specification -/
+example : (match Opt.decodeFull .none {} C01.exT C01.exDoc with
+    | (v, some .mismatch) => C01.isEx v 8
+    | _ => false) = true := by decide +kernel
 
 end SonicSpec.Props.C11
